@@ -67,6 +67,13 @@ def OR(*args):
     return any(args)
 
 
+def switch_equal(target, case):
+    # a logical never equals a number (Python's True == 1)
+    if isinstance(target, bool) != isinstance(case, bool):
+        return False
+    return target == case
+
+
 @dispatcher.register_for('SWITCH')
 def SWITCH(target_value, *args):
     if isinstance(target_value, error.XLError):
@@ -76,7 +83,7 @@ def SWITCH(target_value, *args):
     argc = len(args)
     default_clause = utils.DEFAULT if (argc % 2 == 0) else args[-1]
     for i in range(0, argc, 2):
-        if target_value == args[i]:
+        if switch_equal(target_value, args[i]):
             return args[i + 1]
     if default_clause is not utils.DEFAULT:
         return default_clause
